@@ -192,6 +192,7 @@ func TestC05StoreBeforeAck(t *testing.T) {
 					qos     int32
 					id      int32
 					payload string
+					topic   string
 					faulty  bool // some destination write is expected to fail
 					seqSent int64
 				}
@@ -232,15 +233,18 @@ func TestC05StoreBeforeAck(t *testing.T) {
 					log0, rpc0 := len(w.LogEvents), len(w.RPCEvents)
 					w.mu.Unlock()
 					expectForward := false
-					var fwdPayload string
+					var fwdPayload, fwdTopic string
+					// every event publishes on a topic of its own (same length): what is stored for a handshake must be the topic
+					// of ITS publish, whatever the session published in between
+					evTopic := "t/" + string(rune('a'+k))
 					sessionAlive := w.Node(1).Local.Get(pub.SessionID) != nil
 					switch {
 					case ev == "pub0":
-						e := &pubEv{qos: 0, payload: fmt.Sprintf("m%d", k), faulty: faultsOn && len(dest) > 0 && ((p.FailLocal && has(dest, 1)) || ((p.FailRem || p.FailRemLog) && has(dest, 2)))}
-						pub.Publish("t/x", e.payload, 0, p.Retain, 0)
-						expectForward, fwdPayload = true, e.payload
+						e := &pubEv{qos: 0, payload: fmt.Sprintf("m%d", k), topic: evTopic, faulty: faultsOn && len(dest) > 0 && ((p.FailLocal && has(dest, 1)) || ((p.FailRem || p.FailRemLog) && has(dest, 2)))}
+						pub.Publish(e.topic, e.payload, 0, p.Retain, 0)
+						expectForward, fwdPayload, fwdTopic = true, e.payload, e.topic
 					case strings.HasPrefix(ev, "pub1"):
-						e := &pubEv{qos: 1, payload: fmt.Sprintf("m%d", k)}
+						e := &pubEv{qos: 1, payload: fmt.Sprintf("m%d", k), topic: evTopic}
 						if strings.Contains(ev, "repeat") {
 							if last1 == nil {
 								return
@@ -252,10 +256,10 @@ func TestC05StoreBeforeAck(t *testing.T) {
 						}
 						e.faulty = (faultsOn && ((p.FailLocal && has(dest, 1)) || ((p.FailRem || p.FailRemLog) && has(dest, 2)))) || shutdownFaulty(k)
 						e.seqSent = w.Seq()
-						pub.Send(&packet.Publish{Header: &packet.Header{Qos: 1, Dup: strings.HasSuffix(ev, "dup"), Retain: p.Retain}, Topic: []byte("t/x"), Payload: []byte(e.payload), MessageId: e.id})
+						pub.Send(&packet.Publish{Header: &packet.Header{Qos: 1, Dup: strings.HasSuffix(ev, "dup"), Retain: p.Retain}, Topic: []byte(e.topic), Payload: []byte(e.payload), MessageId: e.id})
 						pubs = append(pubs, e)
 						last1 = e
-						expectForward, fwdPayload = true, e.payload
+						expectForward, fwdPayload, fwdTopic = true, e.payload, e.topic
 					case strings.HasPrefix(ev, "pub2"):
 						pendingSame := false
 						if last2 != nil {
@@ -270,11 +274,11 @@ func TestC05StoreBeforeAck(t *testing.T) {
 						}
 						if strings.Contains(ev, "repeat") && pendingSame {
 							// retransmission of the same message while its handshake is pending: same identifier, same payload
-							pub.Send(&packet.Publish{Header: &packet.Header{Qos: 2, Dup: strings.HasSuffix(ev, "dup"), Retain: p.Retain}, Topic: []byte("t/x"), Payload: []byte(last2.payload), MessageId: last2.id})
+							pub.Send(&packet.Publish{Header: &packet.Header{Qos: 2, Dup: strings.HasSuffix(ev, "dup"), Retain: p.Retain}, Topic: []byte(last2.topic), Payload: []byte(last2.payload), MessageId: last2.id})
 						} else {
 							// a fresh handshake; "repeat" after the earlier handshake ended (completed, failed or
 							// timed out) legitimately reuses its identifier for a new message
-							e := &pubEv{qos: 2, payload: fmt.Sprintf("m%d", k)}
+							e := &pubEv{qos: 2, payload: fmt.Sprintf("m%d", k), topic: evTopic}
 							if strings.Contains(ev, "repeat") {
 								e.id = last2.id
 							} else {
@@ -282,7 +286,7 @@ func TestC05StoreBeforeAck(t *testing.T) {
 								e.id = nextID
 							}
 							e.seqSent = w.Seq()
-							pub.Send(&packet.Publish{Header: &packet.Header{Qos: 2, Dup: strings.HasSuffix(ev, "dup"), Retain: p.Retain}, Topic: []byte("t/x"), Payload: []byte(e.payload), MessageId: e.id})
+							pub.Send(&packet.Publish{Header: &packet.Header{Qos: 2, Dup: strings.HasSuffix(ev, "dup"), Retain: p.Retain}, Topic: []byte(e.topic), Payload: []byte(e.payload), MessageId: e.id})
 							pubs = append(pubs, e)
 							last2 = e
 							if sessionAlive {
@@ -298,7 +302,7 @@ func TestC05StoreBeforeAck(t *testing.T) {
 						pub.Send(&packet.PubRel{Header: &packet.Header{}, MessageId: h.ev.id})
 						h.pending = false
 						h.completed = !h.ev.faulty // a failed forward completes nothing: the client may start over
-						expectForward, fwdPayload = sessionAlive, h.ev.payload
+						expectForward, fwdPayload, fwdTopic = sessionAlive, h.ev.payload, h.ev.topic
 						exercisedQ2 = true
 					case ev == "rel-completed":
 						h := findHS(false, true)
@@ -344,6 +348,10 @@ func TestC05StoreBeforeAck(t *testing.T) {
 					for _, le := range newLogs {
 						if le.Payload != fwdPayload {
 							viol("c05-foreign-append", "event %d (%s) appended an unrelated message %v", k, ev, le)
+							return
+						}
+						if le.Topic != "_default/"+fwdTopic {
+							viol("c05-stored-under-another-topic:"+evKind(ev), "event %d (%s): the message published on %q was handed to node %d's log under topic %q", k, ev, fwdTopic, le.Node, le.Topic)
 							return
 						}
 						perNode[le.Node]++
@@ -559,5 +567,102 @@ func TestC05SlowRemote(t *testing.T) {
 		func(rep *vk.Report) {
 			rep.Rule = "one publish (QoS 0/1/2) whose remote destination's log takes 0.9 / 1.5 / 2.6 / 4 / 7 s per append, with and without a local subscriber: at most one successful append on the remote log, an acknowledgement only with one, the remote subscriber receives it at most once"
 			rep.Floor("stored_once", 5, rep.Nontrivial)
+		})
+}
+
+// TestC05RealLogFailure: the failure comes from the on-disk log itself, not from the seam in front of it. The node's log
+// holds one entry less than a full segment; its directory is then made unusable (the volume went away: nothing new can be
+// created in it, the open segment still accepts writes). The first stored publish fills the segment, every later one needs
+// a new segment, which the log cannot create. Every sequence of up to three publishes (QoS 0 / 1 / complete QoS 2
+// handshake): what the publisher is acknowledged for must be readable back from the log.
+func TestC05RealLogFailure(t *testing.T) {
+	type rp struct {
+		Events     []string `json:"events"`
+		RoomBefore int      `json:"entries_that_still_fit"`
+	}
+	var paths []rp
+	var rec func(cur []string)
+	rec = func(cur []string) {
+		if len(cur) > 0 {
+			for _, room := range []int{0, 1} {
+				paths = append(paths, rp{append([]string{}, cur...), room})
+			}
+		}
+		if len(cur) == 3 {
+			return
+		}
+		for _, e := range []string{"pub0", "pub1", "pub2+rel"} {
+			rec(append(cur, e))
+		}
+	}
+	rec(nil)
+	RunPaths(t, "C05", "C05/real-log-failure", "TestC05RealLogFailure", len(paths), vk.Pick(4*time.Minute, 10*time.Minute),
+		func(t *testing.T, i int, rep *vk.Report) {
+			p := paths[i]
+			RunBubble(t, fmt.Sprintf("p%d", i), func(t *testing.T) {
+				w := NewWorld(t, 1, NodeOpts{Prefill: 500 - p.RoomBefore, PrefillState: -1})
+				defer w.Close()
+				viol := func(sig, format string, a ...any) {
+					rep.Violate(vk.Violation{Sig: sig, Msg: fmt.Sprintf("%+v: ", p) + fmt.Sprintf(format, a...), Replay: p})
+				}
+				sub := w.NewClient("sub-local", 1, AckAll)
+				sub.Connect(ConnectOpts{ClientID: "sub-local", KeepAlive: 600})
+				sub.Subscribe(1, 1, "t/#")
+				pub := w.NewClient("pub", 1, AckAll)
+				if pub.Connect(ConnectOpts{ClientID: "pub", KeepAlive: 600}) != 0 {
+					rep.HarnessError("connect failed")
+					return
+				}
+				w.Idle(2 * time.Second) // the consumer works through the prefilled entries
+				if err := w.BreakLogDir(1); err != nil {
+					rep.HarnessError("could not make the log directory unusable: %v", err)
+					return
+				}
+				sawRefusal := false
+				for k, ev := range p.Events {
+					payload := fmt.Sprintf("m%d", k)
+					id := int32(20 + k)
+					switch ev {
+					case "pub0":
+						pub.Publish("t/x", payload, 0, false, 0)
+					case "pub1":
+						pub.Publish("t/x", payload, 1, false, id)
+					case "pub2+rel":
+						pub.Publish("t/x", payload, 2, false, id)
+						w.Step()
+						pub.Send(&packet.PubRel{Header: &packet.Header{}, MessageId: id})
+					}
+					w.Idle(1500 * time.Millisecond)
+					inLog, err := w.LogHolds(1, payload)
+					if err != nil {
+						rep.HarnessError("reading the log back: %v", err)
+						return
+					}
+					acked := pub.Has(fmt.Sprintf("PUBACK(%d)", id)) || pub.Has(fmt.Sprintf("PUBCOMP(%d)", id))
+					if ev != "pub0" && acked && !inLog {
+						viol("c05-acknowledged-without-storage:real-log-failure", "event %d (%s): the publisher got its final acknowledgement, but the node's log (whose directory is unusable, %d entries still fitted) does not hold the message", k, ev, p.RoomBefore)
+						return
+					}
+					if k >= p.RoomBefore && inLog {
+						rep.HarnessError("the log accepted entry %d although its directory is unusable: the fault does not bite", k)
+						return
+					}
+					if !inLog {
+						sawRefusal = true
+					}
+				}
+				if sawRefusal {
+					MarkNontrivial(fmt.Sprint(p))
+					rep.Nontrivial++
+				}
+				if i%7 == 0 {
+					rep.Sample(p)
+				}
+			})
+		},
+		func(i int) any { return paths[i] },
+		func(rep *vk.Report) {
+			rep.Rule = "single node whose on-disk log is one or zero entries short of a full segment and whose directory has become unusable (real I/O failure when the next segment is created, no seam involved); every sequence of up to 3 publishes (QoS 0, QoS 1, QoS 2 with its release): a final acknowledgement only for a message that can be read back from the log"
+			rep.Floor("refused_appends", 20, rep.Nontrivial)
 		})
 }
